@@ -16,7 +16,7 @@ INDEX = "clematis/memory/index.py:"
 R.untype("Vec")
 # episode ids are strings that this code only hashes, compares and passes through str(): opaque ordered key sort
 R.untype("EpId", strlike=True)
-R.dictlike("Episode", {"id": "Un[EpId]", "owner?": "str", "ts?": "str", "vec_full?": "Un[Vec]", "text?": "str"})
+R.dictshape("Episode", {"id": "Un[EpId]", "owner?": "str", "ts?": "str", "vec_full?": "Un[Vec]", "text?": "str"})
 R.objtype("MemIndex", {"_eps": "List[Episode]", "_ver": "int"}, cls=("clematis/memory/index.py", "InMemoryIndex"))
 EPS = "List[Episode]"
 
@@ -331,14 +331,14 @@ R.contract(
         "picked": ["forall((v, 'int'), v in picked, exists(p, 0 <= p < len(head), head[p] == v))"],
         "tail": ["forall(r, 0 <= r < len(order0), implies(not (order0[r] in picked), exists(q, 0 <= q < len(tail), tail[q] == order0[r])))",
                  "forall(r, 0 <= r < len(order0), exists(p, 0 <= p < len(head), head[p] == order0[r]) or exists(q, 0 <= q < len(tail), tail[q] == order0[r]))"]},
-    post_setup=["lemma_concat_occurs(result, head, tail)", "lemma_onto_compose(result, order0, len(items))"],
+    post_setup=["lemma_concat_occurs(result, head, tail)", "lemma_onto_compose(result, order0, len(items))"], named_seqs=True,
 )
 
 # ------------------------------------------------------------------ lexical fusion (quality_ops.fuse): only permutes
 QOPS = "clematis/engine/stages/t2/quality_ops.py:"
 R.untype("FId", strlike=True)
-R.dictlike("FuseItem", {"id": "Un[FId]", "score?": "float", "text?": "str"})
-R.dictlike("FusedItem", {"id": "Un[FId]", "score?": "float", "text?": "str", "score_fused": "float"})
+R.dictshape("FuseItem", {"id": "Un[FId]", "score?": "float", "text?": "str"})
+R.dictshape("FusedItem", {"id": "Un[FId]", "score?": "float", "text?": "str", "score_fused": "float"})
 _FSCORE = "(alpha * sem_rr.get(items[%(j)s]['id'], 0.0) + (1.0 - alpha) * lex_rr.get(items[%(j)s]['id'], 0.0))"
 R.contract(
     QOPS + "fuse", "C11", name="fuse[interpolate-and-sort region]", callee=False,
